@@ -75,6 +75,10 @@ def stages(tier, rng, only=None):
     out.append(ac.stage("lookalike_rankings", PID, lambda: ac.cases(ac.lookalike_datasets(rng, 200 if tier == "quick" else 1500),
                                                                     BIO, SCHEMES, namings=["weird"]), _nt))
     out.append(ac.stage("hard_corpus", PID, lambda: ac.corpus_cases(BIO, flags=(0,)), _nt))
+    out.append(ac.stage("after_the_exact_algorithm", PID, lambda: ac.simple_reuse_cases(
+        [ac.random_dataset(rng, 5, 5, nmin=3) for _ in range(n_rand // 4)] + [ac.cyclic_dataset(rng, 3, 5) for _ in range(n_rand // 4)],
+        ["BioConsert", "BioCo", "Bio[Copeland,KwikSort]"], ac.MIXEDMAG[2:] + SCHEMES[:2],
+        {"kind": "prealg", "cfg0": "ExactPulp"}, flags=(0,)), _nt))
     out.append(ac.stage("threshold", PID, lambda: ac.cases([ac.random_dataset(rng, 5, 4, nmin=3) for _ in range(n_rand)],
                                                            BIO, FINE), _nt))
     if tier == "thorough":
